@@ -138,7 +138,8 @@ def transform_metadata(a, inverse):
 
 def get_spacing(c):
     spacing = np.diff(c)
-    if not np.allclose(spacing[0], spacing):
+    # (atol=0: the tolerance is relative to the spacing, not a length)
+    if not np.allclose(spacing[0], spacing, atol=0):
         raise ValueError("array has nonuniform spacing, can't determine coordinates for fft")
     return spacing[0]
 
